@@ -109,11 +109,14 @@ def make_arg(it: Interp, model: Model, env: Inst, cls_: str, call_name: Any = No
     return inst("FunctionExtension", name=Const(name), args=it.new_list([]))
 
 
-def check_typing_table(model: Model, report: Report, rule: str, rule_arity: str) -> None:
+def check_typing_table(model: Model, report: Report, rule: str, rule_arity: str, only_valid: bool = False) -> None:
     eci = model.cls("environment.JSONPathEnvironment")
     fn = eci.find_method("check_well_typedness")
     if fn is None:
         raise AnalysisError("anchor vanished: JSONPathEnvironment.check_well_typedness")
+    entry = eci.find_method("validate_function_extension_signature")
+    if entry is not None and len(entry.node.args.args) != 3:
+        entry = None
     FIRST = {"after-VALUE": ("VALUE", "literal:int"), "after-LOGICAL": ("LOGICAL", "comparison"), "after-NODES": ("NODES", "query:relative:non-singular")}
     # the registry is arbitrary (C05 quantifies over any set of registered functions): a nested call is also
     # typed when the function it names has replaced a standard function of another result type
@@ -137,6 +140,10 @@ def check_typing_table(model: Model, report: Report, rule: str, rule_arity: str)
                 tok = make_token(it, model, "FUNCTION", Const("f"), "ftok")
                 a = make_arg(it, model, env, arg, call_name)
                 args = [a] if pos == "only" else [make_arg(it, model, env, FIRST[pos][1]), a]
+                if entry is not None:
+                    # through the parser's entry point (registry lookup, then the check), on an environment that has
+                    # been used before: nothing it remembers may let an ill-typed call through
+                    return it.call_function(entry, [env, tok, it.new_list(args)], {}, None, self_av=env)
                 return it.call_function(fn, [env, tok, f, it.new_list(args)], {}, None, self_av=env)
 
             key = f"typing:{param}Type<-{arg}" + ("" if pos == "only" else f":second-parameter-{pos}") + (f":registered-as-{call_name}" if call_name else "")
@@ -146,6 +153,8 @@ def check_typing_table(model: Model, report: Report, rule: str, rule_arity: str)
                 report.undecided(rule, fn.qualname, f"{key}: {err}")
                 continue
             want = accepts(param, arg)
+            if only_valid and not want:
+                continue
             bad = None
             for run in runs:
                 if run.kind == "raise":
@@ -161,7 +170,7 @@ def check_typing_table(model: Model, report: Report, rule: str, rule_arity: str)
             else:
                 report.ok(rule, fn.qualname, key, detail={"accepted": want, "paths": len(runs)})
     # arity
-    for n_params in (0, 1, 2):
+    for n_params in (0, 1, 2) if not only_valid else ():
         for n_args in (0, 1, 2, 3):
 
             def body2(it: Interp, n_params=n_params, n_args=n_args) -> Any:
@@ -358,6 +367,52 @@ def check_positions(model: Model, report: Report, rule: str) -> None:
     report.touched(site.qualname, "parse.Parser.parse_filter_expression", "parse.Parser.parse_infix_expression", "parse.Parser.parse_function_extension")
 
 
+def check_parenthesised_arguments(model: Model, report: Report, rule: str) -> None:
+    """A parenthesised expression as a function argument is a logical-expr (LogicalType): `(@.a)` may only be passed to a
+    LogicalType parameter, and `(1)` / `(f())` with f returning ValueType are not logical expressions at all (RFC 9535
+    2.4.3 and the ABNF of function-argument / paren-expr).  Parentheses leave no trace in the expression tree, so this is
+    decided on token shapes: `h( ( <inner> ) )` with h declared to take one parameter of each type."""
+    pci = model.cls("parse.Parser")
+    site = pci.find_method("parse_function_extension") or pci.find_method("parse_filter_selector")
+    INNER = {"singular-query": "@.a", "non-singular-query": "@.*", "literal": "1", "call->VALUE": "fv()", "call->NODES": "fn()", "call->LOGICAL": "fl()"}
+    for ptype in TYPES:
+        for inner, text in INNER.items():
+
+            def shape(it: Interp, q: Any, inner=inner) -> List[Inst]:
+                T = lambda t, v, l: make_token(it, model, t, Const(v), l, q)  # noqa: E731
+                return [T("FUNCTION", "h", "h"), T("LPAREN", "(", "lp")] + operand_tokens(it, model, inner, q, 0) + [T("RPAREN", ")", "rp1"), T("RPAREN", ")", "rp2")]
+
+            def run() -> List[Any]:
+                fn = pci.find_method("parse_filter_selector")
+
+                def body(it: Interp) -> Any:
+                    env = real_env(it, model)
+                    for ret in TYPES:
+                        register(it, env, f"f_{ret.lower()}", probe_function(it, model, [], ret, []))
+                    register(it, env, "h", probe_function(it, model, [ptype], "LOGICAL", []))
+                    parser = env.attrs["parser"]
+                    q = it.new_str("query")
+                    toks = [make_token(it, model, "FILTER", Const("?"), "filter", q)] + shape(it, q)
+                    toks += [make_token(it, model, "RBRACKET", Const("]"), "rb", q), make_token(it, model, "EOF", Const(""), "eof", q)]
+                    st = make_stream(it, model, toks)
+                    return it.call_function(fn, [parser, st], {}, None, self_av=parser)
+
+                return paths(model, body, 4000)
+
+            key = f"paren-argument:{ptype}Type<-({inner})"
+            runs = _try(report, rule, site, key, run)
+            if runs is None:
+                continue
+            logical_expr = inner in ("singular-query", "non-singular-query", "call->NODES", "call->LOGICAL")
+            want = logical_expr and ptype == "LOGICAL"
+            why = (
+                "a parenthesised test expression passed to a LogicalType parameter" if want
+                else ("ill-typed: a parenthesised expression is a logical-expr (LogicalType), not a " + ("value" if ptype == "VALUE" else "query") if logical_expr
+                      else "not derivable: a literal / ValueType result in parentheses is not a logical expression")
+            )
+            judge_parse(report, rule, site, key, runs, want, f"?h(({text}))  [h takes one {ptype}Type parameter]", why)
+
+
 def _try(report: Report, rule: str, site: Any, key: str, f: Any) -> Optional[List[Any]]:
     try:
         return f()
@@ -545,6 +600,8 @@ def check(model: Model, report: Report) -> None:
     check_typing_table(model, report, "R05.1", "R05.2")
     check_positions(model, report, "R05.3")
     check_singular(model, report, "R05.5")
+    report.rule("R05.8", "a parenthesised argument is a LogicalType expression: accepted only for LogicalType parameters and only if it is a test expression; a parenthesised literal or ValueType call is refused for every parameter type")
+    check_parenthesised_arguments(model, report, "R05.8")
     check_range(model, report, "R05.6")
     from . import _tokgrid
 
